@@ -49,7 +49,18 @@ def fbuild(c):
     return math.ldexp(float(c[0]), -c[1])
 
 
-BIG_INT_BITS = 13000  # CPython refuses int <-> decimal str beyond 4300 digits: such ints travel as hex
+# CPython refuses int <-> decimal str beyond 4300 digits (json.dumps included: finding int-beyond-str-digits); the repair
+# (fixes/C11-huge-int.diff) writes ints beyond 2048 bits as {"__type": "int", "hex": …} — a representation the Lean model
+# (unbounded `Int` written as a JSON number) does not have: such ints travel as hex and are decided by the oracle only
+BIG_INT_BITS = 2048
+
+
+_DEC_LIMIT = 10 ** 4300
+
+
+def too_long_for_decimal(n):
+    """more than 4300 decimal digits: CPython's default limit for int <-> str (sys.int_info.default_max_str_digits)"""
+    return abs(n) >= _DEC_LIMIT
 
 
 def icode(n):
@@ -74,6 +85,14 @@ def _mods():
 
 class Unknown:
     """a class the serializer has never heard of"""
+
+
+# values of built-in types the encoder has no branch for, but which a Colang expression can produce and a flow can keep
+# (`"abc".encode()`, `$d.keys()`, `$l.append`): finding state-holds-unserialisable-builtin
+BUILTIN_OTHERS = {
+    "bytes": lambda: b"ab", "dict_keys": lambda: {"a": 1}.keys(), "dict_values": lambda: {"a": 1}.values(), "dict_items": lambda: {"a": 1}.items(),
+    "builtin_function_or_method": lambda: [1].append,
+}
 
 
 def build_key(k):
@@ -145,7 +164,7 @@ def build(j, pool=None):
               "equal_greater_than": ev._equal_or_greater_than_operator, "not_equal_to": ev._not_equal_to_operator}
         return mk[j["c"][0]](build(j["c"][1], pool))
     if "o" in j:
-        return Unknown()
+        return BUILTIN_OTHERS[j["o"]]() if j["o"] in BUILTIN_OTHERS else Unknown()
     raise ValueError(j)
 
 
